@@ -65,7 +65,7 @@ def gen_case(rng, depth, cols=None, rows=None, allow_from=True):
         rows = [r + (v,) for r, v in zip(rows, ovals)]
         model_rows = [r + (_dec_cast(v), _date_cast(v)) for r, v in zip(rows, ovals)]
         obj = {'o': (n0 + 1, n0 + 2)}
-    g = exprgen.Gen(rng, cols, max_depth=depth, obj=obj, lib=True)
+    g = exprgen.Gen(rng, cols, max_depth=depth, obj=obj, lib=True, unary_chains=0.07)
     targets = [g.expr(rng.choice(exprgen.ALL_TYPES)) for _ in range(rng.randint(1, 3))]
     where = None
     mode = rng.random()
@@ -189,6 +189,62 @@ def matrix_cases():
         out.append({'cols': [('a', T_BOOL), ('b', T_BOOL), ('c', T_BOOL)], 'rows': rows,
                     'targets': [('a', '(ECol 0%nat)'), ('b', '(ECol 1%nat)'), ('c', '(ECol 2%nat)')],
                     'where': (cond, coq), 'from': None, 'ops': ['where-truth'], 'depth': 1})
+    out.extend(unary_matrix_cases())
+    return out
+
+
+UNARY = [('NOT', 'UNot'), ('IS NULL', 'UIsNull'), ('IS NOT NULL', 'UIsNotNull')]
+
+
+def _un(op, e):
+    """(text, coq) of one NULL-aware unary operator applied to (text, coq)"""
+    sym, tag = op
+    return ((f'(NOT {e[0]})' if tag == 'UNot' else f'({e[0]} {sym})'), f'(EUnary {tag} {e[1]})')
+
+
+def unary_matrix_cases():
+    """Exhaustive depth-2 (and NOT-runs up to 4): every pair U1(U2(x)) of the NULL-aware unary operators NOT / IS NULL /
+    IS NOT NULL, and NOT^2..NOT^4, over every kind of NON-CONSTANT operand (bool column, AND, OR, comparison, IN, BETWEEN,
+    match, bool(), an int / str column coerced by NOT), on all assignments of the operand columns incl. NULL; each one
+    observed as a target cell, under IS NULL, under COALESCE(.., TRUE) and COALESCE(.., FALSE), and as WHERE condition
+    bare / under NOT / under COALESCE / under IS NULL."""
+    out = []
+    tv = [None, True, False]
+    c0, c1 = '(ECol 0%nat)', '(ECol 1%nat)'
+    bool_ops = [('a', c0), ('(a AND b)', f'(EAnd [{c0}; {c1}])'), ('(a OR b)', f'(EOr [{c0}; {c1}])'),
+                ('bool(a)', f'(EFunc FBool [{c0}])'), ('coalesce(a, b)', f'(ECoalesce [{c0}; {c1}])')]
+    iv = [None, 0, 1, 2]
+    int_ops = [('a', c0), ('(a < b)', f'(EBinary BLt {c0} {c1})'), ('(a = b)', f'(EBinary BEq {c0} {c1})'),
+               ('(a != 1)', f'(EBinary BNe {c0} (EConst (VInt 1)))'),
+               ('(a IN (1, 2))', f'(EIn false {c0} (Some [VInt 1; VInt 2]))'),
+               ('(a NOT IN (1, 2))', f'(EIn true {c0} (Some [VInt 1; VInt 2]))'),
+               ('(a BETWEEN 1 AND b)', f'(EBetween {c0} (EConst (VInt 1)) {c1})'),
+               ('bool(a)', f'(EFunc FBool [{c0}])')]
+    sv = [None, '', 'ab', 'Cash']
+    str_ops = [('a', c0), ("(a ~ 'a')", f'(EBinary BMatch {c0} (EConst {values.to_coq("a")}))'),
+               ("(a !~ 'a')", f'(EBinary BNotMatch {c0} (EConst {values.to_coq("a")}))'),
+               ('(a < b)', f'(EBinary BLt {c0} {c1})')]
+    for ty, dom, operands in ((T_BOOL, tv, bool_ops), (T_INT, iv, int_ops), (T_STR, sv, str_ops)):
+        cols = [('a', ty), ('b', ty)]
+        rows = list(itertools.product(dom, dom))
+        for x in operands:
+            chains = [_un(u1, _un(u2, x)) for u1 in UNARY for u2 in UNARY]
+            nn = _un(UNARY[0], _un(UNARY[0], x))
+            chains.append((f'(NOT NOT {x[0]})', nn[1]))                      # the spelling without parentheses
+            nnn = _un(UNARY[0], nn)
+            chains += [nnn, (f'(NOT NOT NOT {x[0]})', nnn[1]), _un(UNARY[0], nnn), _un(UNARY[1], nnn), _un(UNARY[0], _un(UNARY[1], nn))]
+            targets = []
+            for ch in chains:
+                targets += [ch, _un(UNARY[1], ch), (f'coalesce({ch[0]}, TRUE)', f'(ECoalesce [{ch[1]}; EConst (VBool true)])'),
+                            (f'coalesce({ch[0]}, FALSE)', f'(ECoalesce [{ch[1]}; EConst (VBool false)])')]
+            out.append({'cols': cols, 'rows': rows, 'targets': targets, 'where': None, 'from': None,
+                        'ops': ['unary-matrix/target'], 'depth': 2})
+            ident = [('a', c0), ('b', c1)]
+            for ch in chains[:9] + chains[9:12:2]:
+                for w in (ch, _un(UNARY[0], ch), (f'coalesce({ch[0]}, TRUE)', f'(ECoalesce [{ch[1]}; EConst (VBool true)])'),
+                          _un(UNARY[1], ch)):
+                    out.append({'cols': cols, 'rows': rows, 'targets': ident, 'where': w, 'from': None,
+                                'ops': ['unary-matrix/where'], 'depth': 2})
     return out
 
 
@@ -303,10 +359,16 @@ def run(tier, rng):
         'rule': 'random typed expression trees (depth<=%d) over tables of 2-6 typed columns, 0-12 rows, NULL density 0-50%%, used as '
                 'targets and as WHERE / FROM conditions; exhaustive depth-1 matrix: every modelled binary operator overload x all '
                 'pairs of pool values incl. NULL, zero, negatives, AND/OR/NOT/IS NULL/COALESCE truth tables over {NULL,TRUE,FALSE}^3; '
+                'runs of 2-4 directly nested NOT / IS NULL / IS NOT NULL over non-constant bool operands in the random trees (operator_histogram '
+                'unary-chain/n) and exhaustively at depth 2: every pair of those operators, NOT^2..NOT^4, spelled with and without parentheses, over '
+                'bool column / AND / OR / comparison / IN / BETWEEN / match / bool() / coalesce operands on all assignments of {NULL,..} to the operand '
+                'columns, each observed as a cell, under IS NULL, under COALESCE and as WHERE condition (unary_matrix_cases); '
                 'NULL-strictness sweep over every registered function and operator overload x NULL position; '
                 'non-trivial = distinct (statement, table) with depth>=2, >=1 row and >=1 NULL' % depth,
         'samples': [statement(c) for c in cases[len(matrix_cases()):len(matrix_cases()) + 5]],
         'traces_validated_against_impl': len(cases), 'null_strictness_checks': nsweep,
+        'unary_matrix_cases': len(unary_matrix_cases()),
+        'unary_chain_trees': sum(v for k, v in ophist.items() if k.startswith('unary-chain/')),
         'operator_histogram': dict(sorted(ophist.items())), 'depth_histogram': depth_hist,
         'implementation_exceptions': errors, 'exhaustive': False,
     }
